@@ -43,9 +43,18 @@ int main(int argc, char** argv) {
     return verdict();
   }
   if (g.rfind("px_", 0) == 0) {
-    // parse-level: must not throw / terminate for any text
-    try { auto refs = Reference::ExtractAll(s); std::printf("ExtractAll returned %zu reference(s)\n", refs.size()); }
-    catch (const std::exception& e) { EXPECT(false, "Reference::ExtractAll threw %s", e.what()); }
+    // parse-level: must not throw / terminate for any text; a collaboration offset is the decimal value of its field
+    try {
+      auto ref = Reference::Parse(s);
+      std::printf("Parse(\"%s\") -> type %d\n", s.c_str(), (int)ref.GetType());
+      if (ref.IsCollaboration()) {
+        auto bar = s.find('|'); std::string field = s.substr(2, bar == std::string::npos ? 0 : bar - 2);
+        long long want = std::strtoll(field.c_str(), nullptr, 10);
+        EXPECT((long long)ref.GetOffset() == want, "collaboration offset %d, but the field reads %lld", (int)ref.GetOffset(), want);
+      }
+      auto refs = Reference::ExtractAll(s); (void)refs;
+    }
+    catch (const std::exception& e) { EXPECT(false, "Reference::Parse threw %s", e.what()); }
     return verdict();
   }
   return 2;
